@@ -111,6 +111,9 @@ def judge (s : SpecSt) : Op → Ans → List Sig × SpecSt
     ([], setPoint s k t (if racing then [some v, none] else [some v]) racing)
   | .delete k lo hi, .ok =>
     ([], mapRange s k lo hi (fun p => { p with adm := [none], racing := false }))
+  | .delBegin k lo hi, .done =>
+    -- the delete ran to its end at once
+    ([], mapRange s k lo hi (fun p => { p with adm := [none], racing := false }))
   | .delBegin k lo hi, .ok =>
     let s' := mapRange s k lo hi (fun p => { p with adm := union p.adm [none], racing := false })
     ([], { s' with inflight := some (k, lo, hi) })
